@@ -257,6 +257,8 @@ def main(argv=None):
 
     if a.tier == "thorough" and "SYMLAS_XCHECK_EVERY" not in os.environ:
         os.environ["SYMLAS_XCHECK_EVERY"] = "25"
+    if a.tier == "thorough" and "SYMLAS_QUERY_TIMEOUT_MS" not in os.environ:
+        os.environ["SYMLAS_QUERY_TIMEOUT_MS"] = "400000"  # per query: 400 s in the thorough tier (120 s in the quick tier)
     jobs = max(1, min(a.jobs, len(tasks)))
     with ProcessPoolExecutor(max_workers=jobs, mp_context=mp.get_context("spawn"), initializer=_worker_init, initargs=(modname, active)) as ex:
         futs = {ex.submit(_run_task, t, budget, max_paths, 2): t for t in tasks}
